@@ -78,6 +78,8 @@ pub enum Op {
     PollAfterReady,
     /// C14: freeze the environment and require a quiet Pending within held+2 polls
     Freeze,
+    /// the same, but every one of those polls carries a task waker never used before
+    FreezeFresh,
     /// stop all faults, deliver everything owed, run the executor to a fixpoint
     Quiesce,
 }
@@ -205,6 +207,11 @@ pub struct Config {
     /// collect()/extend() are fed from an iterator whose size_hint lower bound is inexact (0)
     #[serde(default)]
     pub inexact_iter: bool,
+    /// shape of the iterator given to collect()/join_all(): 0 = as `inexact_iter` says,
+    /// 2 = lower bound over-reports by 3 (a lying but safe size_hint), 3 = sparse filter_map
+    /// (upper bound larger than what is yielded), 4 = upper bound under-reports
+    #[serde(default)]
+    pub iter_kind: u8,
     /// merge sources report honest size hints instead of the default (0, None)
     #[serde(default)]
     pub src_hints: bool,
